@@ -25,8 +25,10 @@ def run(ck, progs):
                      "when the count of pending LPs reaches 0 or the termination time is passed")
     ck.rule("C10.6", "every message inserted in the serial heap has its flag word initialised (the comparator reads the cancellation bit of recycled buffers)")
     ck.rule("C10.7", "event construction: msg_allocator_pack stores receiver / timestamp / type in the fields of their role and copies exactly the declared payload; ScheduleNewEvent forwards its five parameters position by position")
+    ck.rule("C10.8", "the event heap keeps its shape and the sift-up is strict at the serial sites (C16.4): the main loop dispatches the root, lets the handler insert events and only then extracts the root, so an inserted event that merely ties with the root must not climb over it")
     for cfg, P in progs.items():
         rules_msg.check_pack(ck, P, "C10.7")
+        rules_cmp.check_heap_shape(ck, P, "C10.8", rules_cmp.comparator_sites(P))
         rules_msg.check_flags_initialised(ck, P, "C10.6")
         _main_loop(ck, P, cfg)
         _comparators(ck, P, cfg)
@@ -163,11 +165,19 @@ def _init_fini(ck, P, cfg):
                     kind, mv = Q.result_var(packs[0])
                     if kind == "var" and X.show(X.callee_args(disp[0])[1]) == mv.name:
                         hit = l
+                        extra = [core for core, B in Q.deciding_branches(f, disp[0], transitive=False) if not (X.strip(core) is cond or X.strip(core).is_inside(cond) or X.show(core) == X.show(cond))]
+                        if extra:
+                            ck.violated("C10.3", inst + ":unconditional", extra[0].where, "LP_INIT is dispatched to LP i only if `%s`" % X.show(extra[0])[:60], cfg)
             else:
                 ds = [c for c in l.walk() if c.k == "CallExpr" and not c.callee and X.show(c.children[0]) == DISPATCH and X.const_int(X.callee_args(c)[2]) == code and
                       X.show(X.callee_args(c)[0]) == iv[0].name]
                 if len(ds) == 1:
                     hit = l
+                    # nothing but the loop itself decides whether LP i gets its LP_FINI
+                    extra = [core for core, B in Q.deciding_branches(f, ds[0], transitive=False) if not (X.strip(core) is cond or cond.is_inside(core) or X.strip(core).is_inside(cond) or X.show(core) == X.show(cond))]
+                    if extra:
+                        ck.violated("C10.3", inst + ":unconditional", extra[0].where, "LP_FINI is dispatched to LP i only if `%s`: an LP for which this is false never sees its final event, "
+                                    "which a textbook executor delivers to every LP" % X.show(extra[0])[:60], cfg)
         if hit is not None:
             ck.holds("C10.3", inst, hit.where, "for(i = 0; i < global_config.lps; ++i): %s dispatched once for LP i" % what, cfg)
         else:
